@@ -45,7 +45,14 @@ def check_case(ctx, case):
     rec = impl.mk_record(CRec(7, wd, feats, []), track=track)
     rec.annotations["note"] = "kept"
     rec.dbxrefs = ["db:1"]
+    ann_before = dict(rec.annotations)
     out = rec >> k
+    if dict(rec.annotations) != ann_before:
+        ctx.fail("rotating a record changes the annotations of the record it was asked of: {} -> {}".format(
+            sorted(ann_before), sorted(rec.annotations)), case)
+    elif dict(out.annotations) != ann_before:
+        ctx.fail("the annotations of the rotated record are {} instead of those of the original, {}".format(
+            sorted(out.annotations), sorted(ann_before)), case)
     cin = impl.canon_record(rec)
     cout = impl.canon_record(out)
     kk = k % n
@@ -96,6 +103,15 @@ def check_case(ctx, case):
         if list(b2.letter_annotations.get("track", [])) != want:
             ctx.fail("a record without features: per-letter track not rotated with the sequence ({} {})".format(
                 ">>" if kk3 == k else "<<", k if kk3 == k else k2), case)
+    # a record built from a bare sequence, annotated afterwards: rotating neither adds to nor removes from what it says
+    plain = impl.CircularRecord(impl.Seq(wd), id="bare")
+    plain.annotations["organism"] = "synthetic"
+    snap = dict(plain.annotations)
+    for res_, how_ in ((plain >> k, ">>"), (plain << k2, "<<")):
+        if dict(plain.annotations) != snap or dict(res_.annotations) != snap:
+            ctx.fail("rotating ({}) a record built from a bare sequence changes its annotations: {} -> operand {} / "
+                     "result {}".format(how_, sorted(snap), sorted(plain.annotations), sorted(res_.annotations)), case)
+            break
     back = impl.canon_record((rec >> k) << k)
     if back.seq != wd or denot(back.feats, n) != d_in:
         ctx.fail("(r >> {}) << {} is not r".format(k, k), case)
